@@ -150,6 +150,12 @@ class OracleDRO:
     def E(self, e):
         return OExp(e)
 
+    def kldiv(self, p, q, r):
+        return OCons(OAtom('kldiv', p, params=q) - r, 'le')
+
+    def entropy_ge(self, p, r):
+        return OCons(r - OAtom('entropy', p), 'le')
+
     def abs(self, e):
         return OAtom('abs', e)
 
@@ -295,6 +301,12 @@ class RealDRO:
 
     def E(self, e):
         return self.rso.E(e)
+
+    def kldiv(self, p, q, r):
+        return self.rso.kldiv(p, q, r)
+
+    def entropy_ge(self, p, r):
+        return self.rso.entropy(p) >= r
 
     def abs(self, e):
         return abs(e)
@@ -467,6 +479,134 @@ class CompiledDRO:
         if not verts:
             raise HarnessError('ambiguity set is empty')
         return names, sv, verts, (ineq, eq)
+
+    def exp_prob(self, F):
+        from .usets import EXP_SET_KINDS
+        return any(c.is_atom() and c.expr.kind in EXP_SET_KINDS for c in self.o.amb[F]['prob'])
+
+    def weights_poly(self, F):
+        """The set of distributions as constraints over the vertex-spreading weights w[s,k] (Lemma J), for
+        probability sets with exponential-cone atoms (KL divergence, entropy).  Returns (names, sv, G, H, T, aux):
+        Poly lists G (g >= 0), H (h == 0), cone triples T and auxiliary names (see USet.relaxed_poly)."""
+        o = self.o
+        A = o.amb[F]
+        sv = {}
+        for s in range(o.ns):
+            U = self.supports[(F, s)]
+            if U.kind != 'poly':
+                raise HarnessError('non-polyhedral support in the dro oracle')
+            sv[s] = U.vertices()
+            if not sv[s]:
+                raise HarnessError('empty support')
+        names = ['w%d_%d' % (s, k) for s in range(o.ns) for k in range(len(sv[s]))]
+        G = [Poly.var(n) for n in names]
+        H = [sum((Poly.var(n) for n in names), Poly()) - 1]
+        psub = {}
+        for s in range(o.ns):
+            psub['p[%d]' % s] = sum((Poly.var('w%d_%d' % (s, k)) for k in range(len(sv[s]))), Poly())
+        PU = USet(A['prob'], ['p[%d]' % s for s in range(o.ns)])
+        g, h, T, aux = PU.relaxed_poly()
+        G += [q.subs(psub) for q in g]
+        H += [q.subs(psub) for q in h]
+        T = [tuple(Poly.lift(q).subs(psub) for q in t) for t in T]
+        for scens, cons in A['expt']:
+            scale = sum((psub['p[%d]' % s] for s in scens), Poly())
+            musub = {}
+            for zn in o.znames:
+                mu = Poly()
+                for s in scens:
+                    for k, v in enumerate(sv[s]):
+                        mu = mu + Poly.var('w%d_%d' % (s, k)) * v.get(zn, Fraction(0))
+                musub['E' + zn] = mu
+            tmp = USet(cons, ['E' + zn for zn in o.znames])
+            pi, pe = tmp.hrep()
+            for coef, rhs in pi:
+                G.append(scale * rhs - sum((musub[n] * cf for n, cf in coef.items()), Poly()))
+            for coef, rhs in pe:
+                H.append(scale * rhs - sum((musub[n] * cf for n, cf in coef.items()), Poly()))
+        return names, sv, G, H, T, aux
+
+    def prob_contains(self, F, w, tol=1e-7):
+        """Numeric membership of the weight vector w (dict name -> float) in the TRUE set of distributions."""
+        from .oracle import cons_eval
+        o = self.o
+        names, sv, G, H, T, aux = self._wp(F)
+        if any(v < -tol for v in w.values()) or abs(sum(w.values()) - 1) > tol:
+            return False
+        pv = {'p[%d]' % s: sum(w['w%d_%d' % (s, k)] for k in range(len(sv[s]))) for s in range(o.ns)}
+        for c in o.amb[F]['prob']:
+            if cons_eval(c, pv) > tol:
+                return False
+        # expectation sets are linear in w: they are among G/H with only w names
+        wn = set(names)
+        for g in G:
+            if g.vars() <= wn and g.evalf(w) < -tol:
+                return False
+        for h in H:
+            if h.vars() <= wn and abs(h.evalf(w)) > tol:
+                return False
+        return True
+
+    def _wp(self, F):
+        if not hasattr(self, '_wpc'):
+            self._wpc = {}
+        if F not in self._wpc:
+            self._wpc[F] = self.weights_poly(F)
+        return self._wpc[F]
+
+    def worst_distribution(self, F, vals):
+        """argmax sum_w w[s,k]*vals[s,k] over the true set (numeric, SLSQP); used to confirm counterexamples."""
+        from scipy.optimize import minimize
+        from .oracle import cons_eval
+        o = self.o
+        names, sv, G, H, T, aux = self._wp(F)
+        wn = set(names)
+        c = np.array([vals[n] for n in names], dtype=float)
+
+        def pv(x):
+            w = dict(zip(names, x))
+            return {'p[%d]' % s: sum(w['w%d_%d' % (s, k)] for k in range(len(sv[s]))) for s in range(o.ns)}
+        cons = []
+        for g in G:
+            if g.vars() <= wn:
+                cons.append(dict(type='ineq', fun=(lambda x, g=g: g.evalf(dict(zip(names, x))))))
+        for h in H:
+            if h.vars() <= wn:
+                cons.append(dict(type='eq', fun=(lambda x, h=h: h.evalf(dict(zip(names, x))))))
+        for cc in o.amb[F]['prob']:
+            if cc.is_atom():
+                cons.append(dict(type='ineq', fun=(lambda x, cc=cc: -cons_eval(cc, pv(x)))))
+        best = None
+        starts = [np.ones(len(names)) / len(names)]
+        for cc in o.amb[F]['prob']:
+            if cc.is_atom() and cc.expr.kind == 'kldiv':
+                q = [float(frac(v)) for v in np.array(cc.expr.params, dtype=object).reshape(-1)]
+                if len(q) == o.ns:
+                    x0 = []
+                    for s in range(o.ns):
+                        x0 += [q[s] / len(sv[s])] * len(sv[s])
+                    starts.append(np.array(x0))
+        for x0 in starts:
+            r = minimize(lambda x: -float(c @ x), x0, constraints=cons, method='SLSQP', options=dict(maxiter=300))
+            w = {n: float(max(v, 0.0)) for n, v in zip(names, r.x)}
+            tot = sum(w.values())
+            w = {n: v / tot for n, v in w.items()}
+            if not self.prob_contains(F, w, 1e-7):
+                # pull towards the centre until inside (the set is convex and the start is inside)
+                w0 = dict(zip(names, x0))
+                lam = 1.0
+                for _ in range(40):
+                    lam *= 0.8
+                    w2 = {n: lam * w[n] + (1 - lam) * w0[n] for n in names}
+                    if self.prob_contains(F, w2, 1e-7):
+                        w = w2
+                        break
+                else:
+                    continue
+            val = sum(w[n] * vals[n] for n in names)
+            if best is None or val > best[0]:
+                best = (val, w)
+        return best
 
     # ---- semantic rows
     def inst(self, p, s):
